@@ -3,6 +3,7 @@ package poolsim
 import (
 	"fmt"
 	"sort"
+	"time"
 
 	mem "github.com/33cn/chain33/system/mempool"
 	"github.com/33cn/chain33/types"
@@ -38,6 +39,10 @@ func (r *runner) checkAdmission(pre *preState, submitted *built, accepted bool, 
 		switch {
 		case accepted && in:
 			ctx.Probe("admitted")
+		case accepted && !in && pre.inPool[submitted.hash] && time.Now().Unix()-w.enterLo[submitted.hash] >= poolMaxAge:
+			// the pooled copy had outlived its life time: the sweep may have removed it
+			// while this submission was being checked, and the new copy took its place
+			ctx.Probe("resubmitted_after_lifetime_of_pooled_copy")
 		case accepted && !in && pre.inPool[submitted.hash]:
 			// the reply says accepted, the object was already pooled: a second copy?
 			return ctx.Violate("admitted-unacceptable", "already-in-pool/"+submitted.shape(0)+"/reply-ok", "object #%d %s was already in the pool and its resubmission was answered OK", submitted.id, hx(submitted.hash))
@@ -63,8 +68,12 @@ func (r *runner) checkAdmission(pre *preState, submitted *built, accepted bool, 
 		if b == nil {
 			return ctx.Violate("admitted-unacceptable", "unknown-object", "the pool holds %s which the harness never built", hx(h))
 		}
+		// (direct: the object this operation submitted; everything else that shows up
+		// was released by the pool itself or was still in flight, and was checked
+		// against the pool state of an earlier moment)
+		direct := direct && (submitted == nil || h == submitted.hash)
 		how := ""
-		if !direct || (submitted != nil && h != submitted.hash) {
+		if !direct {
 			// not the object this operation submitted: released by the pool itself
 			// (delayed transaction, retry) or an admission that was still in flight
 			how = "/indirect"
